@@ -75,6 +75,9 @@ Conf(c) ==
     [] c = "hill2"      -> [fam |-> "evo", rule |-> "top1",  psize |-> 1, isize |-> 2, batch |-> 2]
     [] c = "nsga2"      -> [fam |-> "evo", rule |-> "nsga2", psize |-> 2, isize |-> 4, batch |-> 1]
     [] c = "neat"       -> [fam |-> "evo", rule |-> "neat",  psize |-> 2, isize |-> 2, batch |-> 2]
+    \* an Evolution whose operations read `step`: population_update = Last(n(step)) with step = feedbacks so far,
+    \* reproduction = Top(1) >> mutator * k(step) with step = proposals so far (batch = the largest k)
+    [] c = "sched"      -> [fam |-> "evo", rule |-> "sched", psize |-> 3, isize |-> 2, batch |-> 2]
     [] c = "dd_sweep"   -> [fam |-> "dedup", inner |-> "sweep",  coarse |-> TRUE,  maxdup |-> 1, auto |-> FALSE]
     [] c = "dd_random"  -> [fam |-> "dedup", inner |-> "random", coarse |-> FALSE, maxdup |-> 1, auto |-> FALSE]
     [] c = "dd_random2" -> [fam |-> "dedup", inner |-> "random", coarse |-> FALSE, maxdup |-> 2, auto |-> FALSE]
@@ -119,8 +122,14 @@ BestOf(s) == s[CHOOSE i \in 1..Len(s) : s[i].rw = MaxRw(s) /\ \A j \in 1..(i-1) 
 MaxGenOf(s) == CHOOSE m \in {s[i].gen : i \in 1..Len(s)} : \A j \in 1..Len(s) : s[j].gen <= m
 ByRwDesc(s) == SortSeq(s, LAMBDA a, b : a.rw > b.rw)
 
+SchedSize(step) == IF step % 2 = 1 THEN 1 ELSE 3          \* n(step) of the scheduled Last(n)
+SchedBatch(step) == IF step % 2 = 0 THEN 2 ELSE 1         \* k(step) of the scheduled mutator * k
+EffBatch(cf, g) == IF cf.rule = "sched" THEN SchedBatch(g.np) ELSE cf.batch
+
+(* population_update(population + new individual, step = number of feedbacks received before this one) *)
 PopUpdate(cf, g, pop1) ==
   CASE cf.rule = "last"  -> [pop |-> LastK(pop1, cf.psize), el |-> g.el]                 \* selectors.Last(n)
+    [] cf.rule = "sched" -> [pop |-> LastK(pop1, SchedSize(g.nf)), el |-> g.el]          \* selectors.Last(n(step))
     [] cf.rule = "top1"  -> [pop |-> <<BestOf(pop1)>>, el |-> g.el]                      \* selectors.Top(1)
     [] cf.rule = "neat"  -> [pop |-> SelectSeq(pop1, LAMBDA x : x.gen = MaxGenOf(pop1)), \* latest generation only
                              el |-> g.el]
@@ -136,7 +145,7 @@ EvoFeedbackBody(cf, g, e, rw, count) ==
                !.pop = pu.pop, !.el = pu.el, !.nf = IF count THEN @ + 1 ELSE @]
 
 CanEvolve(cf, g) ==      \* otherwise the reproduction of the real algorithm has no parents and raises
-  CASE cf.rule \in {"last", "top1"} -> g.pop # <<>>
+  CASE cf.rule \in {"last", "top1", "sched"} -> g.pop # <<>>
     [] cf.rule = "nsga2" -> g.el # <<>>
     [] cf.rule = "neat"  -> Len(g.pop) >= 2
 
@@ -151,9 +160,11 @@ EvoPropose(cf, g, o) ==
   THEN Res(TRUE, FALSE, [g EXCEPT !.pend = Tail(@), !.np = @ + 1], Head(g.pend), 0, <<>>)
   ELSE IF g.idone
   THEN IF ~CanEvolve(cf, g) \/ Len(o.kids) # cf.batch THEN Res(FALSE, TRUE, g, NoD, 0, <<>>)
-       ELSE LET kids == [i \in 1..cf.batch |->
+       ELSE LET nb == EffBatch(cf, g)       \* the oracle offers cf.batch children, the step decides how many are made
+                kids == [i \in 1..nb |->
                            [NoD EXCEPT !.dna = o.kids[i], !.pid = g.np + i, !.gen = g.gen + 1, !.draws = 1]]
-            IN Res(TRUE, FALSE, [g EXCEPT !.gen = @ + 1, !.pend = Tail(kids), !.np = @ + 1], kids[1], 0, o.kids)
+            IN Res(TRUE, FALSE, [g EXCEPT !.gen = @ + 1, !.pend = Tail(kids), !.np = @ + 1], kids[1], 0,
+                   SubSeq(o.kids, 1, nb))
   ELSE LET i == g.irng + 1 IN
        IF i > Len(stream) + Len(o.ext) THEN Res(FALSE, TRUE, g, NoD, 0, <<>>)
        ELSE Res(TRUE, FALSE, [g EXCEPT !.irng = i, !.np = @ + 1],
